@@ -46,6 +46,9 @@ def geometries(tier):
                     "omegasign": osign, "wavelength": 0.2846, "t_x": 0.0, "t_y": 0.0, "t_z": 0.0,
                     "cell__a": CELL[0], "cell__b": CELL[1], "cell__c": CELL[2], "cell_alpha": CELL[3], "cell_beta": CELL[4],
                     "cell_gamma": CELL[5], "cell_lattice_[P,A,B,C,I,F,R]": SYM, "fit_tolerance": 0.05})
+    # appended (the indices above are used elsewhere): wedge and chi with the SAME non-zero value, both signs of omega
+    for osign in (1.0, -1.0):
+        out.append(dict(out[7 if len(out) > 7 else 0], wedge=0.9, chi=0.9, omegasign=osign, tilt_x=0.004, tilt_y=-0.007, tilt_z=0.011))
     return out
 
 
